@@ -146,6 +146,78 @@ func enumBF(tier string, yield func(fam string, f *BF) bool) {
 			}
 		}
 	}
+	// chains: a conjunction or disjunction of 2..5 literals at the bottom of 1..4 nested connectives,
+	// each with one fresh variable (or a negation): deep and/or alternation, wide cubes and clauses under
+	// several levels of auxiliary variables
+	{
+		kinds := []string{"or-l", "and-l", "not", "eq-l", "implies-r", "or-r", "and-r", "implies-l", "xor-l"}
+		wrap := func(kind string, v, g *BF) *BF {
+			switch kind {
+			case "or-l":
+				return bfN("or", v, g)
+			case "or-r":
+				return bfN("or", g, v)
+			case "and-l":
+				return bfN("and", v, g)
+			case "and-r":
+				return bfN("and", g, v)
+			case "not":
+				return bfN("not", g)
+			case "eq-l":
+				return bfN("eq", v, g)
+			case "implies-l":
+				return bfN("implies", v, g)
+			case "implies-r":
+				return bfN("implies", g, v)
+			}
+			return bfN("xor", v, g)
+		}
+		var bottoms []*BF
+		maxW := 5
+		if thorough {
+			maxW = 6
+		}
+		for _, op := range []string{"and", "or"} {
+			for w := 2; w <= maxW; w++ {
+				for pat := 0; pat < 3; pat++ {
+					var kids []*BF
+					for i := 0; i < w; i++ {
+						l := bfVar(uniqNames[i])
+						if pat == 1 || (pat == 2 && i%2 == 1) {
+							l = bfN("not", l)
+						}
+						kids = append(kids, l)
+					}
+					bottoms = append(bottoms, bfN(op, kids...))
+				}
+			}
+		}
+		lv := []string{"p", "q", "r", "s"}
+		var rec func(g *BF, depth int) bool
+		rec = func(g *BF, depth int) bool {
+			if depth > 0 && !yield("chain", g) {
+				return false
+			}
+			if depth == 4 {
+				return true
+			}
+			ks := kinds
+			if depth == 3 && !thorough {
+				ks = kinds[:5]
+			}
+			for _, k := range ks {
+				if !rec(wrap(k, bfVar(lv[depth]), g), depth+1) {
+					return false
+				}
+			}
+			return true
+		}
+		for _, b := range bottoms {
+			if !rec(b, 0) {
+				return
+			}
+		}
+	}
 	if thorough {
 		// depth 3 over {a,b}
 		l2 := []*BF{bfVar("a"), bfVar("b")}
@@ -175,7 +247,7 @@ type c11 struct{}
 func (c11) ID() string    { return "C11" }
 func (c11) Level() string { return "exploration" }
 func (c11) Rule() string {
-	return "cases = formula trees built with the public constructors: every tree of depth <=1 over leaves {a,b,c,true,false, exactly-one groups of 0..6 names} with Not, And/Or of 0..3 children, Implies, Eq, Xor, each also under one and two negations; every depth-2 tree with a binary connective over the depth-1 trees of a reduced leaf set (a,b,true,false, groups of 1,4,5 names), And/Or also negated; ternary And/Or of depth-1 trees (thorough: larger leaf sets, every connective negated, depth 3 over {a,b}). Oracle: bf.Solve returns nil iff the reference truth table is all false; otherwise the returned map makes the formula true under every completion of the names it omits. Non-trivial = the formula is neither a tautology nor a contradiction."
+	return "cases = formula trees built with the public constructors: every tree of depth <=1 over leaves {a,b,c,true,false, exactly-one groups of 0..6 names} with Not, And/Or of 0..3 children, Implies, Eq, Xor, each also under one and two negations; every depth-2 tree with a binary connective over the depth-1 trees of a reduced leaf set (a,b,true,false, groups of 1,4,5 names), And/Or also negated; ternary And/Or of depth-1 trees; chains: a conjunction or disjunction of 2..5 literals under 1..4 nested connectives each bringing one fresh variable (thorough: larger leaf sets, every connective negated, depth 3 over {a,b}). Oracle: bf.Solve returns nil iff the reference truth table is all false; otherwise the returned map makes the formula true under every completion of the names it omits. Non-trivial = the formula is neither a tautology nor a contradiction."
 }
 func (c11) Assumptions() []string {
 	return []string{"the reference evaluator uses the standard semantics (empty conjunction true, empty disjunction false, exactly-one = exactly one name true)", "extra keys in the returned map (auxiliary names) are ignored"}
